@@ -38,6 +38,50 @@ def init(b, mem):
     memory_id = mem
 
 
+# ---------------------------------------------------------------------------
+# Verification hook (add-only).  Inert unless AEGEAN_VERIF=1 *and*
+# AEGEAN_VERIF_DIR are set when this module is imported: then each worker
+# logs its arrival at a synchronisation point, waits for the harness to
+# release it (file rendezvous: the workers are forked inside
+# filter_mc_sharemem and inherit nothing the harness could hand them) and
+# raises on request.
+# ---------------------------------------------------------------------------
+if (os.environ.get('AEGEAN_VERIF') == '1'
+        and os.environ.get('AEGEAN_VERIF_DIR')):
+    def _verif_point(ymin, phase):
+        import time
+        vdir = os.environ['AEGEAN_VERIF_DIR']
+
+        def log(tag):
+            fd = os.open(os.path.join(vdir, 'events'),
+                         os.O_WRONLY | os.O_APPEND | os.O_CREAT, 0o644)
+            try:
+                os.write(fd, '{0} {1} {2} {3}\n'.format(
+                    tag, os.getpid(), ymin, phase).encode())
+            finally:
+                os.close(fd)
+
+        log('E')
+        go = os.path.join(vdir, 'go.{0}.{1}'.format(ymin, phase))
+        free = os.path.join(vdir, 'free')
+        limit = float(os.environ.get('AEGEAN_VERIF_TIMEOUT', '120'))
+        start = time.time()
+        while not (os.path.exists(go) or os.path.exists(free)):
+            if time.time() - start > limit:
+                log('T')
+                raise RuntimeError('verif hook: no token for {0} {1}'.format(
+                    ymin, phase))
+            time.sleep(0.001)
+        if os.path.exists(os.path.join(
+                vdir, 'fault.{0}.{1}'.format(ymin, phase))):
+            log('F')
+            raise RuntimeError('verif hook: injected fault at {0} {1}'.format(
+                ymin, phase))
+else:
+    def _verif_point(ymin, phase):
+        return
+
+
 def sigmaclip(arr, lo, hi, reps=10):
     """
     Perform sigma clipping on an array, ignoring non finite values.
@@ -157,6 +201,7 @@ def sigma_filter(filename, region, step_size, box_size, shape, domask,
     """
 
     ymin, ymax = region
+    _verif_point(ymin, 'p1')
     logging.debug('rows {0}-{1} starting at {2}'.format(ymin,
                   ymax, strftime("%Y-%m-%d %H:%M:%S", gmtime())))
 
@@ -246,7 +291,9 @@ def sigma_filter(filename, region, step_size, box_size, shape, domask,
     logging.debug(" ... done writing bkg")
 
     # wait for all to complete
+    _verif_point(ymin, 'b1')
     i = barrier.wait()
+    _verif_point(ymin, 'a1')
     if i == 0:
         barrier.reset()
 
@@ -275,10 +322,13 @@ def sigma_filter(filename, region, step_size, box_size, shape, domask,
 
     if domask:
         # wait for all to complete
+        _verif_point(ymin, 'b2')
         i = barrier.wait()
+        _verif_point(ymin, 'a2')
         if i == 0:
             barrier.reset()
 
+        _verif_point(ymin, 'mk')
         logging.debug("applying mask")
         mask = ~np.isfinite(
             data[0 + ymin - data_row_min: data.shape[0] -
